@@ -9,8 +9,9 @@ STATIC_MODULES = ["SAV.engine.TxnRun"]
 RULE = (
     "kind hist: histories over {begin, begin_nested, insert, conn.commit/rollback/close, "
     "commit/rollback/close/__enter__/__exit__(ok|exc) on every transaction object created so far "
-    "(autobegun roots included)}: all histories of length <= 3, all histories of length 4-5 over a "
-    "savepoint-centred sub-alphabet, plus random histories (quick <= 9 ops, thorough <= 25 ops) from "
+    "(autobegun roots included)}: all histories of length <= 3 (handle indices <= 2), the histories of "
+    "length 4 (quick: a seeded sample of 300; thorough: all of length 4-5) over a savepoint-centred "
+    "sub-alphabet, plus random histories (quick <= 9 ops, thorough <= 25 ops) from "
     "three generators (uniform misuse, reference-guided nesting, with-statement programs), run on "
     "real SQLite (sqlite3 autocommit=False) and observed after EVERY operation: exception class, "
     "commands that reached the DBAPI connection, warnings, in_transaction/in_nested_transaction, "
@@ -307,7 +308,7 @@ def _enum(maxlen, alphabet_fn, cap_handles):
         if len(prefix) == maxlen:
             return
         for op in alphabet_fn(min(nh, cap_handles), v):
-            nh2 = nh + (2 if op[0] in (NESTED,) and nh == 0 else 1 if op[0] in (BEGIN, NESTED, INS) else 0)
+            nh2 = nh + (2 if op[0] == NESTED else 1 if op[0] in (BEGIN, INS) else 0)  # upper bound
             prefix.append(op)
             rec(prefix, nh2, v + 1 if op[0] == INS else v)
             prefix.pop()
@@ -463,12 +464,12 @@ def gen_cases(rng, tier):
         if len(h) >= 4:
             hist.append((h, "enum-savepoint"))
     if not thorough:
-        # the quick tier keeps a seeded sample of the two exhaustive families
+        # the quick tier keeps all of enum3 and a seeded sample of the savepoint family
         e3 = [x for x in hist if x[1] == "enum3"]
         es = [x for x in hist if x[1] != "enum3"]
         rng.shuffle(e3)
         rng.shuffle(es)
-        hist = e3[:700] + es[:300]
+        hist = e3 + es[:300]
     nrand = 6000 if thorough else 250
     maxlen = 25 if thorough else 9
     for _ in range(nrand):
